@@ -46,6 +46,18 @@ double NewtonBacktrackOneDimension::doStep()
     return fold_;
   }
 
+  // A trial point that is refused when the evaluation budget ends must not be what is reported:
+  // go back to the starting point, as when giving up.
+  auto refusedTrial = [this]() {
+      if (nbEval_ + 1 >= nbEvalMax_)
+      {
+        getParameter_(0).setValue(0);
+        getFunction()->setParameters(getParameters());
+        return fold_;
+      }
+      return f_;
+    };
+
   getParameter_(0).setValue(alam_);
   f_ = getFunction()->f(getParameters());
 
@@ -60,7 +72,7 @@ double NewtonBacktrackOneDimension::doStep()
     tmplam_ = -slope_ / (2.0 * (f_ - fold_ - slope_));
     f2_ = f_;
     alam_ = tmplam_ > 0.1 ? tmplam_ : 0.1;
-    return f_;
+    return refusedTrial();
   }
 
   rhs1_ = f_ - fold_ - alam_ * slope_;
@@ -88,7 +100,7 @@ double NewtonBacktrackOneDimension::doStep()
   f2_ = f_;
   alam_ = tmplam_ > 0.1 * alam_ ? tmplam_ : 0.1 * alam_;
 
-  return f_;
+  return refusedTrial();
 }
 
 /******************************************************************************/
